@@ -1330,7 +1330,8 @@ class Tr:
 FUNCS = {}
 
 
-def generate():
+def generate(stub=None):
+    stub = stub or {}
     trees = {}
     for t in TARGETS:
         if t.file not in trees:
@@ -1354,6 +1355,8 @@ def generate():
                 fn = region_function(t, fn)
             tr = Tr(t, fn)
             code = tr.function()
+            if t.lean in stub:
+                raise Unsupported('the translation does not type-check: ' + stub[t.lean])
             src = ast.get_source_segment(open(os.path.join(REPO, t.file)).read(), getattr(fn, '_src_node', fn)) or ''
             src = '\n'.join(l for l in src.split('\n'))
             chunks.append(f'/- {t.file}:{fn.lineno}\n{src.replace("/-", "/ -").replace("-/", "- /")}\n-/\n{code}\n')
@@ -1378,6 +1381,21 @@ def write_if_changed():
         os.makedirs(os.path.dirname(OUT), exist_ok=True)
         with open(OUT, 'w') as f:
             f.write(text)
+        # the text changed (the source was edited): definitions that do not elaborate become stubs, so that the driver and
+        # the other translated functions keep compiling
+        try:
+            from harness import leancheck
+        except ImportError:
+            import leancheck
+        stub = {}
+        for _ in range(4):
+            ok, bad = leancheck.failing_defs(os.path.relpath(OUT, leancheck.LEAN), ['Kingdon.Model.Py'])
+            if ok or not bad or set(bad) <= set(stub):
+                break
+            stub.update(bad)
+            text, report = generate(stub)
+            with open(OUT, 'w') as f:
+                f.write(text)
     return report
 
 
